@@ -55,7 +55,12 @@ def check(run: Run) -> None:
     run.sample(dict(rule="C17.R1", slice_functions=len(slice_), stdout_sites=n_out))
 
     # ---- R2
-    fo, fd, fl = model.func(F_OPEN), model.func(F_DISPATCH), model.func(F_LOCAL)
+    # The operation is analysed with its private helpers folded back in: the word scan = run_action_open without the
+    # dispatcher; the dispatcher = _open_link with its predicates (but not the openers it hands over to).
+    from ..flatten import flat_info
+
+    fo = flat_info(model, F_OPEN, exclude=(F_DISPATCH,))
+    fd = flat_info(model, F_DISPATCH, expr_only=True)
     consts = {k: v.value for k, v in fo.module.assigns.items() if isinstance(v, ast.Constant) and isinstance(v.value, str)}
 
     def lit(e: ast.expr):
@@ -66,17 +71,24 @@ def check(run: Run) -> None:
         return None
 
     def markers(fn: ast.FunctionDef, methods: tuple[str, ...]) -> set[str]:
+        """Constant link markers a word is tested against: w.find(m) / w.startswith(m) / m in w."""
         out = set()
+        cands = []
         for c in ast.walk(fn):
             if isinstance(c, ast.Call) and isinstance(c.func, ast.Attribute) and c.func.attr in methods and c.args:
-                v = lit(c.args[0])
-                if v is not None and v not in ("]", "]]") and len(v) >= 2:
-                    out.add(v)
+                a0 = c.args[0]
+                cands.extend(a0.elts if isinstance(a0, ast.Tuple) else [a0])
+            elif isinstance(c, ast.Compare) and len(c.ops) == 1 and isinstance(c.ops[0], (ast.In, ast.NotIn)):
+                cands.append(c.left)
+        for a in cands:
+            v = lit(a)
+            if v is not None and v not in ("]", "]]") and len(v) >= 2:
+                out.add(v)
         return out
 
-    scan = markers(fo.node, ("find", "startswith")) | markers(fl.node, ("find", "startswith"))
-    scan = {m for m in scan if not m.startswith("# ")}  # "# S " / "# W " are the query-line test, not link markers
-    disp = markers(fd.node, ("startswith", "find")) | markers(fl.node, ("find", "startswith"))
+    scan = markers(fo.node, ("find", "startswith"))
+    scan = {m for m in scan if not m.startswith("# ") and not m.startswith(".")}  # "# S " / "# W " / ".zoq" are the query-line test, not link markers
+    disp = markers(fd.node, ("startswith", "find"))
     run.check("C17.R2", "scan markers == dispatch markers", scan == disp, "run_action_open/_open_link", f"scan {sorted(scan)} vs dispatch {sorted(disp)}",
               f"the word scan recognises {sorted(scan)} but _open_link dispatches {sorted(disp)}: a target that is offered cannot be opened (or falls through to the ZID branch)",
               file=FILE, node=fd.node)
@@ -114,6 +126,14 @@ def check(run: Run) -> None:
                     joined = any(t.startswith("joined(' ')") for t in getattr(sh[1], "transforms", ()))
                     run.check("C17.R3", "PROMPT lists the targets separated by one space", joined, "run_action_open", n,
                               "the PROMPT message is not the space-joined target list", file=FILE, node=n)
+    aliases = {targets_var} if targets_var else set()
+    for _ in range(4):  # follow `targets = helper_result` aliases introduced by folding a helper back in
+        srcs = [a.value for a in walk_no_nested(fn) if isinstance(a, ast.Assign) and any(isinstance(t, ast.Name) and t.id == targets_var for t in a.targets)]
+        if targets_var and len(srcs) == 1 and isinstance(srcs[0], ast.Name) and not mutated_names(fn).get(targets_var):
+            targets_var = srcs[0].id
+            aliases.add(targets_var)
+        else:
+            break
     if targets_var is None:
         run.undecided("C17.R3", "run_action_open", "cannot find the PROMPT message / target list")
     else:
@@ -127,6 +147,11 @@ def check(run: Run) -> None:
         scan_loops = [n for n in walk_no_nested(fn) if isinstance(n, ast.For) and targets_var in mutated_names(n)]
         if len(scan_loops) == 1:
             src = ast.unparse(scan_loops[0].iter)
+            for _ in range(3):  # look through `words = line.split(); for w in enumerate(words)`
+                for nm in {n.id for n in ast.walk(ast.parse(src, mode="eval")) if isinstance(n, ast.Name)}:
+                    defs_ = [a.value for a in walk_no_nested(fn) if isinstance(a, ast.Assign) and len(a.targets) == 1 and isinstance(a.targets[0], ast.Name) and a.targets[0].id == nm]
+                    if len(defs_) == 1:
+                        src = src.replace(nm, f"({ast.unparse(defs_[0])})")
             run.check("C17.R3", "the scan walks the words of the line left to right", ".split(" in src and "sorted" not in src and "reversed" not in src, "run_action_open",
                       scan_loops[0].iter, f"the scan iterates `{src[:70]}`", file=FILE, node=scan_loops[0])
         # selection
@@ -134,12 +159,12 @@ def check(run: Run) -> None:
         for n in walk_no_nested(fn):
             if isinstance(n, ast.If):
                 t = ast.unparse(n.test)
-                if f"len({targets_var}) == 1" in t:
-                    sel_ok["single"] = any(isinstance(s, ast.Subscript) and base_name(s.value) in (targets_var, "list") and int_eval(s.slice, {}) == 0 for b in n.body for s in ast.walk(b))
+                if any(f"len({al}) == 1" in t for al in aliases):
+                    sel_ok["single"] = any(isinstance(s, ast.Subscript) and base_name(s.value) in (aliases | {"list"}) and int_eval(s.slice, {}) == 0 for b in n.body for s in ast.walk(b))
                 if "option_idx == -1" in t:
-                    sel_ok["last"] = any(isinstance(s, ast.Subscript) and base_name(s.value) == targets_var and int_eval(s.slice, {}) == -1 for b in n.body for s in ast.walk(b))
+                    sel_ok["last"] = any(isinstance(s, ast.Subscript) and base_name(s.value) in aliases and int_eval(s.slice, {}) == -1 for b in n.body for s in ast.walk(b))
         for n in walk_no_nested(fn):
-            if isinstance(n, ast.For) and isinstance(n.iter, ast.Call) and ast.unparse(n.iter.func) == "enumerate" and n.iter.args and ast.unparse(n.iter.args[0]) == targets_var:
+            if isinstance(n, ast.For) and isinstance(n.iter, ast.Call) and ast.unparse(n.iter.func) == "enumerate" and n.iter.args and ast.unparse(n.iter.args[0]) in aliases:
                 start = 0
                 if len(n.iter.args) > 1:
                     start = int_eval(n.iter.args[1], {}) or 0
@@ -154,7 +179,7 @@ def check(run: Run) -> None:
                         v0 = int_eval(side, {ivar: start})
                         if v0 is not None:
                             sel_ok["kth"] = v0 == 1  # the first element (i = start) is chosen by option 1
-            if isinstance(n, ast.Subscript) and base_name(n.value) == targets_var and "option_idx" in ast.unparse(n.slice):
+            if isinstance(n, ast.Subscript) and base_name(n.value) in aliases and "option_idx" in ast.unparse(n.slice):
                 v = int_eval(n.slice, {"option_idx": 1}) if isinstance(n.slice, ast.BinOp) else None
                 if isinstance(n.slice, ast.BinOp):
                     txt = ast.unparse(n.slice).replace("cfg.option_idx", "K")
